@@ -23,7 +23,8 @@ RULE = ("(a) random nested Python values (depth <= 4; every container kind insid
         "automaton classes with container kinds of the constructor arguments varied (dict/frozendict/OrderedDict, "
         "set/frozenset, tuple/list incl. lists inside tuples), both option settings; (c) sessions of public calls on a "
         "pool of DFAs/NFAs/GNFAs (results re-enter the pool) and reads of PDAs/TMs, every pool member snapshotted "
-        "around every call, both option settings. distinct = distinct canonical value / (class, stored definition, "
+        "around every call, both option settings; one session in three is repeated in mutable mode with "
+        "collections.defaultdict transition tables (where a stray lookup would insert a key). distinct = distinct canonical value / (class, stored definition, "
         "mode) / (mode, operation, operand definitions); non-trivial = value has a container nested in a container / "
         "definition has >= 2 states / the call returned (did not raise) on operands with >= 2 states")
 
@@ -392,8 +393,16 @@ def run_session(ctx, mutable, defs, steps=None, nsteps=30, tag="random", sigma="
     with Flags(mutable):
         pool = []
         for cname, kr in defs:
+            cname, _, opt = cname.partition("+")
+            kw = load(kr)
+            if opt == "dd":
+                # the caller's own table is a collections.defaultdict (rows too): a lookup of a missing key inserts it
+                leaf = set if cname == "NFA" else None
+                kw["transitions"] = collections.defaultdict(
+                    (lambda: collections.defaultdict(leaf)) if leaf else dict,
+                    {q: (collections.defaultdict(leaf, row) if leaf else dict(row)) for q, row in kw["transitions"].items()})
             try:
-                pool.append(table[cname](**load(kr)))
+                pool.append(table[cname](**kw))
             except Exception:  # noqa: BLE001
                 return
         names = sorted(OPS)
@@ -594,6 +603,8 @@ def run(ctx):
             defs.append(("NFA", repr(gen.rand_nfa_def(rng, nmax=4, alphabet=sigma, names=names))))
         for mutable in (False, True):
             run_session(ctx, mutable, defs, nsteps=ctx.n(40, 50), sigma=sigma)
+        if s % 3 == 0:
+            run_session(ctx, True, [(c + "+dd", kr) for c, kr in defs], nsteps=ctx.n(40, 50), sigma=sigma, tag="defaultdict")
     t_c = time.time()
     ctx.notes.append(f"phase (c) sessions: {t_c - t_b:.1f}s")
     # PDA / TM reads
